@@ -16,7 +16,7 @@ _spec.loader.exec_module(armx)
 V = "crates/analyzer/src/value.rs"
 OP = "crates/analyzer/src/ir/op.rs"
 
-HEADER = ("use vstd::prelude::*;\nuse vstd::arithmetic::power2::*;\nuse vstd::arithmetic::div_mod::*;\nuse vstd::arithmetic::mul::*;\n"
+HEADER = ("use vstd::prelude::*;\nuse vstd::arithmetic::power2::*;\nuse vstd::arithmetic::power::*;\nuse vstd::arithmetic::div_mod::*;\nuse vstd::arithmetic::mul::*;\n"
           "use vstd::std_specs::ops::*;\nuse vstd::std_specs::cmp::*;\nuse vstd::std_specs::convert::*;\n"
           "verus! {\nglobal size_of usize == 8;\n")
 
@@ -25,12 +25,12 @@ HEADER = ("use vstd::prelude::*;\nuse vstd::arithmetic::power2::*;\nuse vstd::ar
 # (trait, method, Self, Rhs, Output, precondition over a/b, result as a function of a/b)   a = value of self, b = value of rhs
 # ---------------------------------------------------------------------------------------------------------------------
 U, RU, I = "BigUint", "&BigUint", "BigInt"
-BIN_SEM = {"Add": ("true", "{a} + {b}"), "Mul": ("true", "{a} * {b}"), "Div": ("{b} != 0", "{a} / {b}"), "Rem": ("{b} != 0", "{a} % {b}"),
+BIN_SEM = {"Sub": ("{a} >= {b}", "({a} - {b}) as nat"), "Add": ("true", "{a} + {b}"), "Mul": ("true", "{a} * {b}"), "Div": ("{b} != 0", "{a} / {b}"), "Rem": ("{b} != 0", "{a} % {b}"),
            "BitAnd": ("true", "band({a}, {b})"), "BitOr": ("true", "bor({a}, {b})"), "BitXor": ("true", "bxor({a}, {b})")}
 METHOD = {"Add": "add", "Sub": "sub", "Mul": "mul", "Div": "div", "Rem": "rem", "BitAnd": "bitand", "BitOr": "bitor", "BitXor": "bitxor", "Shl": "shl", "Shr": "shr"}
 BIN_FORMS = [
     ("Add", RU, RU), ("Add", RU, U), ("Add", U, U), ("Add", U, RU),
-    ("Mul", RU, RU), ("Div", RU, RU), ("Rem", RU, RU),
+    ("Mul", RU, RU), ("Div", RU, RU), ("Rem", RU, RU), ("Rem", U, RU), ("Sub", RU, RU),
     ("BitAnd", RU, RU), ("BitAnd", U, RU), ("BitAnd", U, U), ("BitAnd", RU, U),
     ("BitOr", RU, RU), ("BitOr", U, U), ("BitOr", U, RU), ("BitOr", RU, U),
     ("BitXor", RU, RU), ("BitXor", U, RU), ("BitXor", U, U), ("BitXor", RU, U),
@@ -114,6 +114,12 @@ TRUSTED = {
     r"pub fn into_owned": "S0: Cow::into_owned returns the owned value, or a clone (equal value) of the borrowed one",
     r"fn add\(self": "S0: BigUint + BigUint (all reference forms): mathematical sum",
     r"fn mul\(self": "S0: BigUint * BigUint: mathematical product",
+    r"fn sub\(self": "S0: &BigUint - &BigUint: natural subtraction; num-bigint panics if the result would be negative: a >= b is a precondition, proved at each use",
+    r"pub fn is_zero": "S0: Zero::is_zero on BigUint: the denoted number is 0",
+    r"pub fn modpow": "S0: BigUint::modpow(exp, modulus) = self^exp mod modulus (vstd pow), modulus non-zero (precondition)",
+    r"fn from\(v: u32\)|fn from\(v: usize\)": "S0: BigUint::from(u32 / usize) denotes the same number",
+    r"fn to_i64\(&self\)": "S0: ToPrimitive::to_i64: Some(v) iff v <= i64::MAX",
+    r"\[i64::unsigned_abs\]": "O5: i64::unsigned_abs = |x| as u64 (2^63 for i64::MIN)",
     r"fn div\(self, rhs: &BigUint": "S0: BigUint / BigUint: floor division, divisor non-zero (precondition, proved at each use)",
     r"fn rem\(self, rhs: &BigUint": "S0: BigUint % BigUint: remainder of floor division, divisor non-zero (precondition)",
     r"fn div\(self, rhs: BigInt": "S0: BigInt / BigInt: quotient truncated toward zero, divisor non-zero (precondition)",
@@ -201,6 +207,26 @@ pub open spec fn is_bit_result(r: Value, w: nat, b: B4) -> bool {
     &&& (w > 64) == (r is BigUint)
     &&& match b { B4::Zero => vp(r) == 0 && vm(r) == 0, B4::One => vp(r) == 1 && vm(r) == 0, _ => vp(r) == 0 && vm(r) == 1 }
 }
+/// 11.4.3 power operator: the exponent is negative (signed, sign position a known or z `1` in the payload plane)
+pub open spec fn pow_neg_exp(y: Value) -> bool { vs(y) && vw(y) >= 1 && bit(vp(y), (vw(y) - 1) as nat) }
+/// the integer the base denotes under the arm's own rule: two's complement if the (extended) base carries the signed flag
+pub open spec fn pow_base(x: Value, w: nat, signed: bool) -> int {
+    if (if vw(x) >= w { vs(x) } else { signed && vs(x) }) { sval(ext_p(x, w, signed), w) } else { ext_p(x, w, signed) as int }
+}
+pub open spec fn pow_post(r: Value, x: Value, y: Value, w: nat, signed: bool) -> bool {
+    let xe = ext_p(x, w, signed);
+    let xm = ext_m(x, w, signed);
+    &&& wf(r) && vw(r) == w && ((w > 64) == (r is BigUint))
+    &&& if vm(y) != 0 { all_x(r, w) }     // x/z anywhere in the exponent (its sign position included) -> all x (11.4.2)
+        else if pow_neg_exp(y) {
+            // Table 11-4, negative exponent: 0 -> x; 1 -> 1; -1 (signed expression) -> -1 if the exponent is odd else 1; anything else -> 0
+            if xm != 0 || xe == 0 { all_x(r, w) }
+            else if xe == 1 { vp(r) == 1 && vm(r) == 0 }
+            else if signed && xe == low(w) { vm(r) == 0 && vp(r) == (if bit(vp(y), 0) { low(w) } else { 1 }) }
+            else { vp(r) == 0 && vm(r) == 0 }
+        } else if xm != 0 { all_x(r, w) }
+        else { vp(y) <= usize::MAX ==> vm(r) == 0 && vp(r) as int == pow(pow_base(x, w, signed), vp(y)) % (pow2(w) as int) }
+}
 pub open spec fn all_x(r: Value, w: nat) -> bool { vw(r) == w && vp(r) == 0 && vm(r) == low(w) }
 pub open spec fn bit1(b: B4) -> ValueU64 {
     match b { B4::Zero => ValueU64 { payload: 0, mask_xz: 0, width: 1, signed: false },
@@ -222,6 +248,11 @@ HELPERS = [
     ("ValueU64", "new_bit_0x", dict(ret="r", spec="    ensures r == bit1(if is_zero { B4::Zero } else if is_x { B4::X } else { B4::One }),", start="        proof { lemma_pow2_small(); }")),
     ("ValueU64", "new_bit_x1", dict(ret="r", spec="    ensures r == bit1(if is_x { B4::X } else if is_one { B4::One } else { B4::Zero }),", start="        proof { lemma_pow2_small(); }")),
     ("ValueU64", "to_usize", dict(ret="r", spec="    ensures r == (if self.mask_xz != 0 { None } else { Some(self.payload as usize) }),")),
+    ("ValueU64", "to_i64", dict(ret="r", spec="    requires wf64(*self), self.width >= 1, self.signed,\n"
+                                                 "    ensures r == (if self.mask_xz != 0 { None } else { Some(sval(self.payload as nat, self.width as nat) as i64) }),\n"
+                                                 "        self.mask_xz == 0 ==> -0x8000_0000_0000_0000 <= sval(self.payload as nat, self.width as nat) <= 0x7fff_ffff_ffff_ffff,",
+                                start="        proof { lemma_pow2_small(); lemma_low_lt(self.width as nat); lemma_pow2_le(self.width as nat, 64); lemma_sval_bound(self.payload as nat, self.width as nat); lemma_pow2_le((self.width - 1) as nat, 63); lemma2_to64_rest();\n"
+                                      "            lemma_to_i64(self.payload, self.width as u64, low(self.width as nat) as u64); }")),
     ("ValueU64", "trunc", dict(spec="    requires %s,\n    ensures final(self).payload as nat == (old(self).payload as nat) %% pow2(width as nat), final(self).mask_xz as nat == (old(self).mask_xz as nat) %% pow2(width as nat),\n"
                                     "        final(self).width == width, final(self).signed == old(self).signed," % W32,
                                start="        proof { let m = if width >= 64 { 64nat } else { width as nat }; lemma_pow2_small(); lemma_low_lt(m); lemma_pow2_le(m, 64);\n"
@@ -264,7 +295,7 @@ HELPERS = [
 
 CFG = armx.DesugarCfg(
     big_fns={"b0", "b1", "zero", "one", "BigUint::from", "BigUint::zero", "BigUint::one", "ValueBigUint::gen_mask", "Self::gen_mask", "BigUint::from_slice"},
-    big_methods={"payload", "mask_xz", "to_bigint", "magnitude"}, big_fields={"payload", "mask_xz"}, big_recv_methods={"mask_cache.get"})
+    big_methods={"payload", "mask_xz", "to_bigint", "magnitude", "modpow"}, big_fields={"payload", "mask_xz"}, big_recv_methods={"mask_cache.get"})
 # Value::expand holds u64 `x.payload` and Box<BigUint> `ret.payload` side by side: fields are not taken as big there
 CFG_NOFIELDS = armx.DesugarCfg(big_fns=CFG.big_fns, big_methods=CFG.big_methods, big_fields=(), big_recv_methods=CFG.big_recv_methods)
 
@@ -525,6 +556,22 @@ ARMS += [
     red("arm_red_xor", "Op::BitXor", RXOR, "any x/z -> x; else parity of the one bits"),
     red("arm_red_xnor", "Op::BitXnor", "b4_not(%s)" % RXOR, "negated parity"),
 ]
+
+POW_REQ = ("    requires wf(*x), wf(*y), %s, vw(*x) <= width, vw(*y) >= 1, signed ==> vs(*x),\n"
+           "    ensures pow_post(r, *x, *y, width as nat, signed),\n")
+POW_START = ("        proof { let w = width as nat; lemma_low_lt(w); lemma_pow2_small(); lemma_ext_bound(*x, w, signed); lemma_band_low(%s, w); lemma_small_mod(%s, pow2(w));\n"
+             "            lemma_sval_bound(%s, w); if w <= 64 { lemma_pow2_le(w, 64); lemma_pow2_le((w - 1) as nat, 63); lemma2_to64_rest(); lemma_agree_bitops(%s as u64, low(w) as u64); }\n"
+             "            if let Value::U64(v) = y { lemma_u64_bit(v.payload, (v.width - 1) as u64); lemma_u64_bit(v.payload, 0); let p = v.payload; assert(p >> 0u64 == p) by (bit_vector); }\n"
+             "        }" % (XE, XE, XE, XE))
+ARMS += [
+    dict(name="arm_pow_big", fn="eval_value_binary", pat="Op::Pow", kills=[("Value::U64(v)", 1), ("Value::U64(x)", 1)], boxref=2, cfg=CFG_NOFIELDS,
+         spec=POW_REQ % "64 < width <= 0xffff_ffff", start=POW_START,
+         clause="big-integer sub-arms (w > 64): x/z anywhere in the exponent -> all x; negative exponent -> Table 11-4 (0 -> all x, 1 -> 1, -1 in a signed expression -> -1/1 by exponent parity, else 0; x/z base -> all x); x/z exponent or base -> all x; "
+                "else payload = (base as the two's complement / unsigned integer the arm uses)^exp mod 2^w for exponents that fit usize, mask 0; always payload < 2^w (11.4.3)"),
+    dict(name="arm_pow_u64", fn="eval_value_binary", pat="Op::Pow", kills=[("Value::BigUint(v)", 1), ("Value::BigUint(x)", 1)], cfg=CFG_NOFIELDS,
+         spec=POW_REQ % "1 <= width <= 64", start=POW_START,
+         clause="the same contract for the <=64-bit sub-arms (which also go through BigUint::modpow): result in U64 form"),
+]
 # @@MORE_ARMS@@
 
 
@@ -549,6 +596,10 @@ HELPER_CLAUSES = {
     "Value::concat": "both sized, total width in 65..2^32-1: result BigUint, unsigned, width = sum, {self, x} layout: position k < vw(x) from x, position k >= vw(x) from self at k - vw(x); value = self * 2^vw(x) + x",
     "Value::assign": "self in BigUint form, end <= beg < width, value any wf value: positions end..=beg = value positions 0.. (zero beyond the value's width), all other positions unchanged, width/signed/form unchanged, wf",
     "Value::set_value": "self in BigUint form (width W): width/signed/form of self unchanged; payload, mask = the value truncated to W (mod 2^W), zero-extended if narrower (NOT sign-extended), an all-bit literal replicated over W positions; wf",
+    "pow_mod_width": "payload < 2^width and payload == (negative ? -mag : mag)^exp mod 2^width (Euclidean), i.e. the two's complement pattern of the signed power; all mag, exp, width",
+    "ValueU64::to_i64": "requires wf, width >= 1, signed: None iff any x/z, else the two's complement value sval(payload, width)",
+    "F-C17-pow-xz (fixed in /repo)": "Op::Pow used to apply Table 11-4 to an exponent with its sign position set even when the exponent contained x/z (4'sd2 ** 2'sb1x -> 0); "
+                                     "the contract now states the IEEE rule for every exponent: any x/z bit -> all x",
     "agreement lemmas": "lemma_agree_bit / lemma_agree_bitops / lemma_agree_arith: a u64 word and the natural number it denotes have the same bits, nat-level and/or/xor are the machine operations, "
                         "wrapping add/sub/mul are the operations modulo 2^64 - so the contracts here, read at operands that fit 64 bits, are the functions opeval's reference computes on words",
 }
@@ -654,6 +705,14 @@ def build(ctx, res):
         f.spec("    ensures bv(r) == %s," % name[1])
         add(f)
         expect.append(name)
+    f = o.item("fn", "pow_mod_width")
+    f.name_return("r")
+    f.spec("    ensures bv(r) < pow2(width as nat),\n"
+           "        bv(r) as int == pow(if negative { -(bv(*mag) as int) } else { bv(*mag) as int }, exp as nat) % (pow2(width as nat) as int),")
+    f.at_start("    proof { lemma_low_lt(width as nat); lemma_pow2_pos(width as nat); lemma_pow_neg(bv(*mag) as int, exp as nat); lemma_pow_width(bv(*mag) as int, exp as nat, pow2(width as nat) as int); }")
+    armx.desugar_ops(f, CFG)
+    add(f)
+    expect.append("pow_mod_width")
     f = armx.nested_fn(fns["eval_value_binary"], "resize")
     f.replace("-> std::borrow::Cow<'_, Value>", "-> (r: Cow<'_, Value>)", rule="E1 + S-ret: fully qualified std::borrow::Cow -> the unit's Cow declaration (stub.rs); return value named `r`")
     f.replace("std::borrow::Cow::Owned(t)", "Cow::Owned(t)", rule="E1: fully qualified std::borrow::Cow -> the unit's Cow declaration (stub.rs)")
@@ -664,12 +723,17 @@ def build(ctx, res):
         parent = fns[a["fn"]]
         hdr = (BIN_HDR if a["fn"] == "eval_value_binary" else UN_HDR) % a["name"]
         f = armx.match_arm(parent, "self", a["pat"], a["name"], hdr)
+        for kp, kn in a.get("kills", []):
+            armx.replace_sub_arm(f, kp, "{ vp_unreachable() }", count=kn, only_blocks=True,
+                                 rule="EB: the sub-arm of the other representation is replaced by a call with precondition `false`, which PROVES it unreachable under this contract")
+        if a.get("boxref"):
+            f.sub(r"\b(v|x)\.payload\.as_ref\(\)", r"vp_box_ref(&\1.payload)", count=a["boxref"], rule="O11")
         if a.get("kill"):
             armx.replace_sub_arm(f, a["kill"], "{ vp_unreachable() }", count=a.get("kill_n", 1),
                                  rule="EB: the <=64-bit sub-arm (proved by Kani in unit opeval) is replaced by a call with precondition `false`, which PROVES it unreachable under this contract")
         for old, new, n in a.get("eo", []):
             f.sub(old, new, count=n, rule="EO: non-short-circuit `|` on bools with a side-effect-free right operand -> `||` (Verus has no bool `|`)")
-        armx.desugar_ops(f, CFG)
+        armx.desugar_ops(f, a.get("cfg", CFG))
         if a.get("into"):
             f.replace(a["into"], "vp_bool_to_u64(ret)", rule="O12: `b.into()` (bool -> u64) outlined to vp_bool_to_u64(b)")
         f.spec(a["spec"])
@@ -708,6 +772,10 @@ CANARIES = [
     ("vp_canary_concat", "proof fn vp_canary_concat(a: Value, b: Value) requires wf(a), wf(b), a is U64, b is U64, vw(a) >= 1, vw(b) >= 1, 64 < vw(a) + vw(b) <= 0xffff_ffff, vm(a) != 0, vp(b) != 0 ensures false {}"),
     ("vp_canary_assign", "proof fn vp_canary_assign(v: Value, x: Value, beg: usize, end: usize) requires wf(v), v is BigUint, wf(x), x is U64, end <= beg < vw(v), vm(x) != 0, vw(x) > beg - end + 1 ensures false {}"),
     ("vp_canary_set_value", "proof fn vp_canary_set_value(v: Value, x: Value) requires wf(v), v is BigUint, wf(x), vw(x) == 0, vp(x) == 1, vm(x) == 1 ensures false {}"),
+    ("vp_canary_pow", "proof fn vp_canary_pow(x: Value, y: Value, width: usize, signed: bool) requires wf(x), wf(y), 64 < width <= 0xffff_ffff, vw(x) <= width, vw(y) >= 1, signed ==> vs(x), "
+                      "signed, !pow_neg_exp(y), vm(y) == 0, vm(x) == 0, vp(y) % 2 == 1, vp(y) > 64, bit(ext_p(x, width as nat, signed), (width - 1) as nat) ensures false {}"),
+    ("vp_canary_pow_neg", "proof fn vp_canary_pow_neg(x: Value, y: Value, width: usize, signed: bool) requires wf(x), wf(y), 1 <= width <= 64, vw(x) <= width, vw(y) >= 1, signed ==> vs(x), "
+                          "pow_neg_exp(y), vm(y) != 0, signed, ext_p(x, width as nat, signed) == low(width as nat), width >= 2 ensures false {}"),
     ("vp_canary_stub", "proof fn vp_canary_stub(a: BigUint, b: BigUint) requires bv(a) == 5, bv(b) == 3 ensures false { broadcast use lemma_band_bit, lemma_bor_bit, lemma_bxor_bit, lemma_low_bit, lemma_bit_high, lemma_mod_bit, lemma_shl_bit, lemma_shr_bit, lemma_bit0; }"),
 ]
 
